@@ -132,13 +132,32 @@ theorem afterInstr_err (m : M) : (afterInstr m).1.err = false := by
   · next h => simpa using h
   · exact (finishErr_spec _ _).1
 
+theorem deadline_err (m : M) (h : m.err = false) :
+    (deadline m).2.err = false ∧ ∀ r, (deadline m).1 = some r → r.1.err = false := by
+  unfold deadline
+  split
+  · split
+    · exact ⟨h, by intro r hr; simp only [Option.some.injEq] at hr; rw [← hr]⟩
+    · exact ⟨h, by intro r hr; cases hr⟩
+  · exact ⟨h, by intro r hr; cases hr⟩
+
 theorem fetchExec_err (m : M) (h : m.err = false) : (fetchExec m).1.err = false := by
   unfold fetchExec
   split
   · exact h
   · split
     · exact h
-    · exact afterInstr_err _
+    · have hd := deadline_err m h
+      split
+      · next r m2 heq => rw [heq] at hd; exact hd.2 r rfl
+      · exact afterInstr_err _
+
+theorem yieldStep_err (m : M) (h : m.err = false) : (yieldStep m).1.err = false := by
+  unfold yieldStep
+  have hd := deadline_err m h
+  split
+  · next r m2 heq => rw [heq] at hd; exact hd.2 r rfl
+  · next m2 heq => rw [heq] at hd; exact hd.1
 
 theorem step_err_aux : ∀ (fuel : Nat) (m m' : M) (r : StepRes), m.err = false →
     step fuel m = (m', r) → r ≠ .hang → r ≠ .crash → m'.err = false := by
@@ -157,7 +176,17 @@ theorem step_err_aux : ∀ (fuel : Nat) (m m' : M) (r : StepRes), m.err = false 
         · split at hs
           · simp at hs; exact absurd hs.2.symm hh
           · simp at hs; exact absurd hs.2.symm hc
-          · next m1 r1 _ _ heq =>
+          · next m1 heq =>
+            split at hs
+            · have ha := afterInstr_err m1
+              split at hs
+              · next m2 heq2 => rw [heq2] at ha; exact ih m2 m' r ha hs hh hc
+              · next m2 r2 _ heq2 => rw [heq2] at ha; simp at hs; rw [← hs.1]; exact ha
+            · next herr =>
+              have herr' : m1.err = false := by simpa using herr
+              have := yieldStep_err m1 herr'
+              rw [hs] at this; exact this
+          · next m1 r1 _ _ _ heq =>
             split at hs
             · have ha := afterInstr_err m1
               split at hs
